@@ -23,7 +23,8 @@ EXPLANATION = (
     "arithmetic (otherwise recorded as not evaluated): the polygon handed to the clipper is the box's rectangle rotated "
     "by +angle about its centre with vertices in boundary order, area() / get_radius() are that rectangle's area and "
     "circumradius, each IoU equals I / (A_l + A_r - I) identically, and the axis-aligned intersection equals "
-    "(min(right edges) - max(left edges)) * (min(bottoms) - max(tops)).")
+    "(min(right edges) - max(left edges)) * (min(bottoms) - max(tops)). (R08.11) every polygon the clipper returns is "
+    "produced by its loop over the clipping edges: no path around the loop hands back an input polygon.")
 NOT_DECIDED = ["exactness of the clipped area and of the IoU value (f64 geometry)", "symmetry / rigid-motion invariance "
                "as numeric statements", "agreement of the closed form with the general path",
                "soundness of the pre-filter bound as an inequality (only its wiring is decided)"]
@@ -379,8 +380,49 @@ def precision_rule(ctx, R):
     return n
 
 
+def clip_no_shortcut_rule(ctx, R):
+    """every polygon sutherland_hodgman_clip returns derives from the vertex buffer its edge loop fills: a result that
+    is built without that buffer (the subject handed back as it is, a copy of an input) skips the clipping for the
+    pairs that take the shortcut - whatever the guard, a bounding-rectangle / containment / equality test cannot know
+    what the edges would cut.  (A result that flows from the buffer on a path where the loop ran zero times - empty
+    clipping polygon - is the loop's own result and is accepted.)"""
+    from lib import backward_locals
+    b = ctx.anchor(R, 'utils::clipping::sutherland_hodgman_clip')
+    if b is None:
+        return 0
+    loops = b.loops()
+    bufs = set()
+    for c in b.find_calls():
+        if c.name in ('push', 'extend', 'push_back', 'insert') and any(c.bb in blks for blks in loops.values()) and c.args \
+                and c.args[0].get('k') in ('copy', 'move'):
+            # receiver is `&mut buffer`: the locals the reference was taken from
+            r = c.args[0]['pl']['l']
+            for d in b.defs().get(r, []):
+                if d[0] == 'assign' and d[3]['rv']['k'] == 'ref':
+                    bufs.add(d[3]['rv']['pl']['l'])
+    if not bufs:
+        ctx.note(R, 'the clipper has no explicit loop that pushes vertices into a buffer (iterator form): shortcut rule '
+                    'not evaluated')
+        return 0
+    n = 0
+    for d in b.defs().get(0, []):
+        if d[1] not in b.live_blocks():
+            continue
+        n += 1
+        src = backward_locals(b, [d])
+        ln = d[3].get('ln', '') if d[0] == 'assign' else d[2].ln
+        ctx.check(bool(src & bufs), R, b, 'result-derives-from-the-clipped-vertex-buffer', 'bb%d' % d[1],
+                  'sutherland_hodgman_clip has a result (bb%d) that is not built from the vertex buffer its loop over the '
+                  'clipping edges fills: an input polygon is handed back unclipped for the pairs that take this shortcut '
+                  '(their intersection area and IoU are wrong; disjoint pairs get a positive area)' % d[1], ln)
+    return n
+
+
 def run(ctx):
     _ownership(ctx)
+    ctx.rule('R08.11', 'every result of sutherland_hodgman_clip is produced by the loop over the clipping edges (no shortcut '
+                       'that returns an input polygon)')
+    ctx.evaluated('R08.11', clip_no_shortcut_rule(ctx, 'R08.11'), 1)
     ctx.rule('R08.1', 'IoU = I / (A_l + A_r - I) on one and the same intersection of both operands (3 siblings)')
     ctx.rule('R08.2', 'IoU absent exactly when both operands are present and the intersection is 0 (3 siblings)')
     n1, n2 = iou_rules(ctx)
